@@ -9,6 +9,10 @@
 //!   * for the clean kinds a controller task acts when operation `k` has completed: it calls
 //!     `Handle::shutdown`, drops the whole application (last handle), shuts the broker down, or
 //!     shuts down / drops the broker side of the victim's connection;
+//!   * combined kinds `<clean>+err` / `<clean>+eof`: the clean cause is applied (at the first
+//!     quiescence or at a seed-drawn operation index), then transport operation number `k` counted
+//!     from that moment and every later one fail -- a clean stop is under way and THEN the
+//!     transport fails; a fault that fired must be the result of `run` (never `Ok`);
 //!   * every task runs on a single-threaded executor with REAL wakers: only woken tasks are
 //!     polled, the seeded `Rng` picks the next one.  A task that is still pending when no task is
 //!     runnable is a hang (lost wake-up or a future nobody will ever complete).  A task that
